@@ -180,12 +180,21 @@ class HedGroup:
             else:
                 group_list.append((child, child._sorted(update_self)))
 
-        tag_list.sort(key=lambda x: str(x[0]))
-        group_list.sort(key=lambda x: str(x[0]))
+        # Sort on a canonical key (case-folded, sub-groups already sorted), so that elements which
+        # compare equal end up adjacent no matter how they were written or ordered; then as written.
+        tag_list.sort(key=lambda x: (self._sort_key(x[1]), str(x[0])))
+        group_list.sort(key=lambda x: (self._sort_key(x[1]), str(x[0])))
         output_list = tag_list + group_list
         if update_self:
             self.children = [x[0] for x in output_list]
         return [x[1] for x in output_list]
+
+    @staticmethod
+    def _sort_key(sorted_item):
+        """ Return the sort key of one element of a sorted view (a HedTag or a nested sorted list). """
+        if isinstance(sorted_item, list):
+            return "(" + ",".join(HedGroup._sort_key(child) for child in sorted_item) + ")"
+        return str(sorted_item).casefold()
 
     @property
     def is_group(self):
